@@ -467,6 +467,19 @@ def eval_C14(case):
     for k in base:
         if not close(got[k], base[k]):
             viol.append((f"turn rates scaled per node: next {k[1]} of {k[0]} differs", jl(got[k]), jl(base[k])))
+    # (c') the same scaling applied to the turn-rate attributes of a network that was already stepped
+    try:
+        b4 = build_from_recipe(rec)
+        numpy_step(b4, vals, params)
+        for key, l in b4.links.items():
+            l.turnrate = l.turnrate * factor[next(x["up"] for x in rec["links"] if x["key"] == key)]
+        got = numpy_step(b4, vals, params)
+        evals += 2
+        for k in base:
+            if not close(got[k], base[k]):
+                viol.append((f"turn rates of an already stepped network scaled per node: next {k[1]} of {k[0]} differs", jl(got[k]), jl(base[k])))
+    except Exception as e:  # noqa: BLE001
+        viol.append((f"re-stepping after scaling the turn-rate attributes raised {type(e).__name__}: {e}", short_tb(), "no exception"))
     # (d) share of the node inflow = beta / sum(betas)
     g = graph_maps(b)
     infl = _inflows(b, vals, base, T)
